@@ -287,7 +287,8 @@ def run(R):
     if okd:
         R.obligation("BitsInfo-default-bitorder", "holds", symbolic=False)
     else:
-        src = "import sys\nfrom sigpyproc.io.bits import BitsInfo\nsys.exit(0 if (BitsInfo(1).bitorder, BitsInfo(2).bitorder, BitsInfo(4).bitorder) == ('little', 'big', 'big') else 1)\n"
+        src = ("import sys\nfrom sigpyproc.io.bits import BitsInfo\nok = (BitsInfo(1).bitorder, BitsInfo(2).bitorder, BitsInfo(4).bitorder) == ('little', 'big', 'big')\n"
+               "print('default bit orders ok' if ok else 'MISMATCH: default bit order per depth is not little/big/big')\nsys.exit(0 if ok else 1)\n")
         R.violation("bitsinfo-defaults", "default bit order per depth changed", src)
     R.vacuity_witness("c03", sum(p.reached for p in parts) > 0)
     # reachability twin: the negated *false* claim "unpack2_big(b)[0] == b" must be satisfiable
